@@ -62,6 +62,9 @@ func runIterPass(kind string, n int, script string) string {
 	rg := &scan.Range{DstSubnet: &net.IPNet{IP: net.IPv4(10, 77, 0, 0).To4(), Mask: net.CIDRMask(32-bits, 32)},
 		Ports: []*scan.PortRange{{StartPort: 1000, EndPort: uint16(1000 + n - 1)}}}
 	ipgen, portgen := scan.NewIPGenerator(), scan.NewPortGenerator()
+	if kind == "nest" {
+		return runIterNest(root, rg, ipgen, portgen, n, base, len(strings.Split(script, ","))-1)
+	}
 	for _, step := range strings.Split(script, ",") {
 		ctx, cancel := context.WithCancel(root)
 		// next() = the next element's offset in the range, ok=false at the end of the pass
@@ -158,12 +161,96 @@ func runIterPass(kind string, n int, script string) string {
 	return strings.Join(out, ",")
 }
 
+// runIterNest: two iterations of the SAME size alive at once, the way ipPortGenerator nests them — one pass over n
+// ports stays open while, for each of its first `inner` elements, a complete pass over a subnet of n addresses is
+// taken from the IP generator (`-p 1000-1255` on a /24).  Every inner pass and the outer pass must each be a
+// permutation; obs = the inner passes, then the outer one.
+func runIterNest(root context.Context, rg *scan.Range, ipgen scan.IPGenerator, portgen scan.PortGenerator, n int, base uint32, inner int) string {
+	ctx, cancel := context.WithCancel(root)
+	defer cancel()
+	ports, err := portgen.Ports(ctx, rg)
+	if err != nil {
+		return "ERR " + hx.HexS(err.Error())
+	}
+	var out []string
+	seenP := make([]bool, n)
+	countP, okP := 0, 1
+	for g := range ports {
+		countP++
+		if countP > 2*n+2 {
+			okP = 0
+			break
+		}
+		p, err := g.GetPort()
+		if v := int(p) - 1000; err != nil || v < 0 || v >= n || seenP[v] {
+			okP = 0
+		} else {
+			seenP[v] = true
+		}
+		if countP > inner {
+			continue
+		}
+		ips, err := ipgen.IPs(ctx, rg)
+		if err != nil {
+			return "ERR " + hx.HexS(err.Error())
+		}
+		seen := make([]bool, n)
+		count, ok := 0, 1
+		for ig := range ips {
+			count++
+			if count > 2*n+2 {
+				ok = 0
+				break
+			}
+			ip, err := ig.GetIP()
+			if err != nil || len(ip) != 4 {
+				ok = 0
+				continue
+			}
+			if v := int(binary.BigEndian.Uint32(ip) - base); v < 0 || v >= n || seen[v] {
+				ok = 0
+			} else {
+				seen[v] = true
+			}
+		}
+		if count != n {
+			ok = 0
+		}
+		out = append(out, fmt.Sprintf("%d:%d", count, ok))
+	}
+	if countP != n {
+		okP = 0
+	}
+	for len(out) < inner { // the outer pass ended before every inner pass had its turn
+		out = append(out, "0:0")
+	}
+	out = append(out, fmt.Sprintf("%d:%d", countP, okP))
+	return strings.Join(out, ",")
+}
+
 func iterPassComponent(r *hx.Run) {
 	r.Rule = "case = (generator kind {ip: scan.NewIPGenerator over a subnet, port: scan.NewPortGenerator over one range}, range size n = 2^b for b in 0..12 (ip) or 1..3000 (port), script of 2-6 passes taken one after the other from ONE generator instance: drained | abandoned after k reads with its context alive (producer parked on a full channel) | cancelled after k reads); observed = for every drained pass (count, every element exactly once); non-trivial class = (kind, size class, shape of the script before the last drained pass)"
 	rng := r.Rng
 	n := 400
 	if r.Tier == "thorough" {
 		n = 6000
+	}
+	// two live iterations of one size (a port range as long as the subnet is large)
+	for b := 0; b <= 11; b++ {
+		reps := 2
+		if r.Tier == "thorough" {
+			reps = 8
+		}
+		for j := 0; j < reps; j++ {
+			size := 1 << uint(b)
+			inner := 1 + rng.Intn(4)
+			if inner > size {
+				inner = size
+			}
+			script := strings.Repeat("F,", inner) + "F"
+			r.Count("kind:nest")
+			r.Case(fmt.Sprintf("nest/2^%d", b), "iterpass", "nest", fmt.Sprint(size), script, runIterPass("nest", size, script))
+		}
 	}
 	for i := 0; i < n; i++ {
 		kind := "ip"
